@@ -20,6 +20,27 @@ class WatchdogTimeout(BaseException):
     pass
 
 
+ENUM = ["SFE", "NotImpl", "ValueError", "IndexError", "TypeError", "KeyError", "StopIteration", "ZeroDivisionError",
+        "LatticeError", "UnboundLocalError", "AttributeError", "OverflowError", "AssertionError", "YappsSyntaxError",
+        "StarError", "Resource", "Other"]
+
+
+def enum_of_exc(e):
+    """Most specific kind of the line-protocol enum for an exception instance (walks the MRO)."""
+    from diffpy.structure.structureerrors import StructureFormatError
+
+    if isinstance(e, StructureFormatError):
+        return "SFE"
+    if isinstance(e, NotImplementedError):
+        return "NotImpl"
+    if isinstance(e, (MemoryError, WatchdogTimeout)):
+        return "Resource"
+    for c in type(e).__mro__:
+        if c.__name__ in ENUM:
+            return c.__name__
+    return "Other"
+
+
 def _alarm(signum, frame):
     raise WatchdogTimeout()
 
@@ -28,39 +49,49 @@ _initialised = False
 _DEVNULL = open(os.devnull, "w")
 
 
-def init_real():
-    """Prepare this process for running the parsers of the tree under test."""
+def init_real(limit=False):
+    """Prepare this process for running code of the tree under test.  `limit=True` (worker processes
+    only) additionally caps the address space so that a runaway allocation ends as MemoryError."""
     global _initialised
-    if _initialised:
-        return
-    common.use_repo()
-    warnings.simplefilter("ignore")
-    import numpy
+    if not _initialised:
+        common.use_repo()
+        warnings.simplefilter("ignore")
+        import numpy
 
-    numpy.seterr(all="ignore")
-    # a runaway allocation must end as MemoryError, not as an OOM kill of the check
-    try:
-        import resource
+        numpy.seterr(all="ignore")
+        _initialised = True
+    if limit:
+        try:
+            import resource
 
-        with open("/proc/self/statm") as f:
-            vm = int(f.read().split()[0]) * os.sysconf("SC_PAGE_SIZE")
-        soft = vm + (3 << 30)
-        _, hard = resource.getrlimit(resource.RLIMIT_AS)
-        if hard == resource.RLIM_INFINITY or soft < hard:
-            resource.setrlimit(resource.RLIMIT_AS, (soft, hard))
-    except Exception:
-        pass
-    signal.signal(signal.SIGALRM, _alarm)
-    _initialised = True
+            with open("/proc/self/statm") as f:
+                vm = int(f.read().split()[0]) * os.sysconf("SC_PAGE_SIZE")
+            soft = vm + (3 << 30)
+            _, hard = resource.getrlimit(resource.RLIMIT_AS)
+            if hard == resource.RLIM_INFINITY or soft < hard:
+                resource.setrlimit(resource.RLIMIT_AS, (soft, hard))
+        except Exception:
+            pass
+        signal.signal(signal.SIGALRM, _alarm)
+
+
+def _site(e):
+    """module.function of the innermost frame inside diffpy.structure (stable under line shifts)."""
+    import traceback
+
+    site = "?"
+    for fs in traceback.extract_tb(e.__traceback__):
+        if "diffpy" in fs.filename and "structure" in fs.filename:
+            site = "%s.%s" % (os.path.splitext(os.path.basename(fs.filename))[0], fs.name)
+    return site
 
 
 def run_real(fmt, text, timeout=WATCHDOG_S):
-    """Outcome kind of the real parser on `text`:
-    'ok' | 'none' | 'SFE' | 'NotImpl' | 'Timeout' | <exception class name>; second item = message."""
+    """Outcome of the real parser on `text`: (kind, exception class name, message) with
+    kind in {'ok', 'none'} + ENUM ('Resource' = watchdog timeout or MemoryError)."""
     init_real()
     from diffpy.structure import Structure
     from diffpy.structure.parsers import getParser
-    from diffpy.structure.structureerrors import StructureFormatError
 
     so, se = sys.stdout, sys.stderr
     sys.stdout = sys.stderr = _DEVNULL      # PyCifRW prints its syntax errors
@@ -72,40 +103,103 @@ def run_real(fmt, text, timeout=WATCHDOG_S):
         finally:
             signal.setitimer(signal.ITIMER_REAL, 0)
             sys.stdout, sys.stderr = so, se
-    except StructureFormatError as e:
-        return "SFE", str(e)[:120]
-    except NotImplementedError as e:
-        return "NotImpl", str(e)[:120]
-    except WatchdogTimeout:
-        return "Timeout", "no result within %.0f s" % timeout
+    except WatchdogTimeout as e:
+        return "Resource", "Timeout", "%s: no result within %.0f s" % (_site(e), timeout)
     except KeyboardInterrupt:
         raise
     except BaseException as e:  # noqa: B902  (the property is about *any* other exception type)
-        return type(e).__name__, str(e)[:120]
+        return enum_of_exc(e), type(e).__name__, (_site(e) + ": " + str(e))[:160]
     if r is None:
-        return "none", ""
+        return "none", "", ""
     if isinstance(r, Structure):
-        return "ok", ""
-    return "returned:" + type(r).__name__, ""
+        return "ok", "", ""
+    return "Other", "returned:" + type(r).__name__, ""
 
 
 def _work(job):
-    fmt, text = job
-    return run_real(fmt, text)
+    """(outcome of the real parser, abstraction of the text) -- both computed in the worker."""
+    from . import c13_abs
+
+    fmt, text, want_alpha = job
+    r = run_real(fmt, text)
+    a = (None, "not requested")
+    if want_alpha:
+        signal.setitimer(signal.ITIMER_REAL, WATCHDOG_S)
+        try:
+            try:
+                a = c13_abs.alpha(fmt, text)
+            finally:
+                signal.setitimer(signal.ITIMER_REAL, 0)
+        except WatchdogTimeout:
+            a = (None, "abstraction timed out")
+        except MemoryError:
+            a = (None, "abstraction ran out of memory")
+    return r, a
 
 
-def run_many(jobs, nproc=None):
-    """Run (fmt, text) jobs in forked workers; returns list of (kind, message) in order."""
+def _worker_init():
+    init_real(limit=True)
+
+
+_pool = None
+
+
+def get_pool():
+    """Persistent pool of forked workers (the real parsers never run in the main process: the
+    address-space cap and the alarm-based watchdog live in the workers)."""
+    global _pool
+    if _pool is None:
+        import atexit
+        import multiprocessing as mp
+
+        init_real()
+        _pool = mp.get_context("fork").Pool(min(12, os.cpu_count() or 2), initializer=_worker_init)
+        atexit.register(close_pool)
+    return _pool
+
+
+def close_pool():
+    global _pool
+    if _pool is not None:
+        _pool.terminate()
+        _pool = None
+
+
+def run_many(jobs):
+    """Run (fmt, text, want_alpha) jobs in the workers; returns list of
+    ((kind, class name, message), (alpha words | None, reason)) in order.
+    A worker that does not answer (hang inside C code, killed) counts as 'Resource'."""
     import multiprocessing as mp
 
     if not jobs:
         return []
-    nproc = nproc or min(12, os.cpu_count() or 2)
-    if len(jobs) < 64 or nproc <= 1:
-        return [_work(j) for j in jobs]
-    ctx = mp.get_context("fork")
-    with ctx.Pool(nproc) as pool:
-        return pool.map(_work, jobs, chunksize=max(1, min(200, len(jobs) // (nproc * 4))))
+    pool = get_pool()
+    n = len(jobs)
+    chunk = max(1, min(100, n // 48))
+    parts = [jobs[i:i + chunk] for i in range(0, n, chunk)]
+    asyncs = [pool.map_async(_work, part) for part in parts]
+    out = []
+    broken = False
+    for part, a in zip(parts, asyncs):
+        try:
+            out += a.get(timeout=len(part) * (WATCHDOG_S + 1) + 30)
+        except mp.TimeoutError:
+            broken = True
+            out += [None] * len(part)
+    if broken:
+        close_pool()
+        for i, r in enumerate(out):
+            if r is None:       # redo one by one to find the culprit
+                try:
+                    out[i] = get_pool().apply_async(_work, (jobs[i],)).get(timeout=WATCHDOG_S + 10)
+                except mp.TimeoutError:
+                    close_pool()
+                    out[i] = (("Resource", "Timeout", "worker did not answer"), (None, "worker did not answer"))
+    return out
+
+
+def run_one(fmt, text):
+    return run_many([(fmt, text, False)])[0][0]
 
 
 # ---- seed corpus ------------------------------------------------------------------------
@@ -184,7 +278,7 @@ def seed_corpus():
     rejected = []
     for fmt in FORMATS:
         for name, txt in corpus[fmt]:
-            k, msg = run_real(fmt, txt)
+            k, _, msg = run_one(fmt, txt)
             if k == "ok":
                 good[fmt].append((name, txt))
             else:
@@ -251,14 +345,25 @@ def apply_mutant(text, d):
 
 # ---- shrinking ---------------------------------------------------------------------------
 
-def shrink(fmt, text, kind, budget=400):
-    """Drop lines, then tokens, while the real parser keeps ending with the same kind."""
+def failure_key(fmt, real):
+    """Specific key of a failing outcome: format, exception class, module.function, message without
+    digits and punctuation (stable under line shifts and differing tokens)."""
+    kind, cls, msg = real
+    site = msg.split(":")[0] if msg else "?"
+    if kind == "Resource":          # watchdog timeout or MemoryError, whichever comes first on this machine
+        return "%s:Resource:%s" % (fmt, site)
+    slug = re.sub(r"\s+", " ", re.sub(r"[^A-Za-z_' ]", "", msg.split(":", 1)[1] if ":" in msg else "")).strip()[:60]
+    return "%s:%s:%s:%s" % (fmt, cls, site, slug)
+
+
+def shrink(fmt, text, key, budget=400):
+    """Drop lines, then tokens, while the real parser keeps failing with the same key."""
     def same(t):
         nonlocal budget
         budget -= 1
-        return run_real(fmt, t, timeout=WATCHDOG_S)[0] == kind
+        return failure_key(fmt, run_one(fmt, t)) == key
 
-    if kind == "Timeout":
+    if ":Resource:" in key:
         return text
     lines = text.split("\n")
     if lines and lines[-1] == "":
